@@ -223,6 +223,12 @@ func normalisePackage(pkgPath string, loadPkgs func(...string) ([]*packages.Pack
 				if d, derr := dropSelfShadow(fname, newContent); derr == nil {
 					newContent = d
 				}
+				if d, derr := inlineSingleUseFuncVar(fname, newContent); derr == nil {
+					newContent = d
+				}
+				if d, derr := simplifyIIFE(fname, newContent); derr == nil {
+					newContent = d
+				}
 			}
 		} else {
 			why = err.Error()
@@ -391,6 +397,12 @@ func processInlined(fname string, src []byte) ([]byte, error) {
 	if d, derr := dropSelfShadow(fname, fixed); derr == nil {
 		fixed = d
 	}
+	if d, derr := inlineSingleUseFuncVar(fname, fixed); derr == nil {
+		fixed = d
+	}
+	if d, derr := simplifyIIFE(fname, fixed); derr == nil {
+		fixed = d
+	}
 	if flat, ferr := flattenBlocks(fname, fixed); ferr == nil {
 		return flat, nil
 	}
@@ -497,6 +509,169 @@ func dropSelfShadow(fname string, src []byte) ([]byte, error) {
 			if !written {
 				edits = append(edits, textEdit{off(ds.Pos()), off(ds.End()), ""})
 			}
+			return true
+		})
+	}
+	if len(edits) == 0 {
+		return src, nil
+	}
+	return applyEdits(src, edits), nil
+}
+
+// simplifyIIFE splices `return (func() T { BODY })()` into BODY: the returns of the literal become returns of the
+// enclosing function (same result types, since the call was the whole return operand). Only literals without
+// parameters, without defer/recover and whose body ends in a return are spliced.
+func simplifyIIFE(fname string, src []byte) ([]byte, error) {
+	fset := token.NewFileSet()
+	f, err := parser.ParseFile(fset, fname, src, parser.ParseComments)
+	if err != nil {
+		return nil, err
+	}
+	off := func(p token.Pos) int { return fset.Position(p).Offset }
+	var edits []textEdit
+	ast.Inspect(f, func(n ast.Node) bool {
+		ret, ok := n.(*ast.ReturnStmt)
+		if !ok || len(ret.Results) != 1 {
+			return true
+		}
+		call, ok := ast.Unparen(ret.Results[0]).(*ast.CallExpr)
+		if !ok || len(call.Args) != 0 {
+			return true
+		}
+		lit, ok := ast.Unparen(call.Fun).(*ast.FuncLit)
+		if !ok || lit.Type.Params.NumFields() != 0 || len(lit.Body.List) == 0 {
+			return true
+		}
+		if _, endsInReturn := lit.Body.List[len(lit.Body.List)-1].(*ast.ReturnStmt); !endsInReturn {
+			return true
+		}
+		clean := true
+		ast.Inspect(lit.Body, func(m ast.Node) bool {
+			switch x := m.(type) {
+			case *ast.FuncLit:
+				return false // returns in there are its own
+			case *ast.DeferStmt:
+				clean = false
+			case *ast.CallExpr:
+				if id, ok := x.Fun.(*ast.Ident); ok && id.Name == "recover" {
+					clean = false
+				}
+			case *ast.ReturnStmt:
+				if len(x.Results) == 0 {
+					clean = false // named results of the literal
+				}
+			}
+			return clean
+		})
+		if !clean {
+			return true
+		}
+		body := string(src[off(lit.Body.Lbrace)+1 : off(lit.Body.Rbrace)])
+		edits = append(edits, textEdit{off(ret.Pos()), off(ret.End()), "{" + body + "}"})
+		return false
+	})
+	if len(edits) == 0 {
+		return src, nil
+	}
+	return applyEdits(src, edits), nil
+}
+
+// inlineSingleUseFuncVar removes `var fn func(...) ... = E` (the binding the x/tools inliner makes for a function-valued
+// argument) when fn is used exactly once afterwards, as the operand of a call, and E is a function literal or a method
+// value / function name built from identifiers that are never assigned in the enclosing function: `fn(args)` becomes
+// `(E)(args)`.
+func inlineSingleUseFuncVar(fname string, src []byte) ([]byte, error) {
+	fset := token.NewFileSet()
+	f, err := parser.ParseFile(fset, fname, src, parser.ParseComments)
+	if err != nil {
+		return nil, err
+	}
+	off := func(p token.Pos) int { return fset.Position(p).Offset }
+	var edits []textEdit
+	for _, d := range f.Decls {
+		fd, ok := d.(*ast.FuncDecl)
+		if !ok || fd.Body == nil {
+			continue
+		}
+		assignedNames := map[string]bool{}
+		ast.Inspect(fd.Body, func(n ast.Node) bool {
+			switch x := n.(type) {
+			case *ast.AssignStmt:
+				for _, l := range x.Lhs {
+					if id, ok := ast.Unparen(l).(*ast.Ident); ok {
+						assignedNames[id.Name] = true
+					}
+				}
+			case *ast.IncDecStmt:
+				if id, ok := ast.Unparen(x.X).(*ast.Ident); ok {
+					assignedNames[id.Name] = true
+				}
+			case *ast.UnaryExpr:
+				if x.Op == token.AND {
+					if id, ok := ast.Unparen(x.X).(*ast.Ident); ok {
+						assignedNames[id.Name] = true
+					}
+				}
+			}
+			return true
+		})
+		ast.Inspect(fd.Body, func(n ast.Node) bool {
+			ds, ok := n.(*ast.DeclStmt)
+			if !ok {
+				return true
+			}
+			gd, ok := ds.Decl.(*ast.GenDecl)
+			if !ok || gd.Tok != token.VAR || len(gd.Specs) != 1 {
+				return true
+			}
+			vs, ok := gd.Specs[0].(*ast.ValueSpec)
+			if !ok || len(vs.Names) != 1 || len(vs.Values) != 1 {
+				return true
+			}
+			if _, isFunc := vs.Type.(*ast.FuncType); !isFunc {
+				return true
+			}
+			name := vs.Names[0].Name
+			if name == "_" || assignedNames[name] {
+				return true
+			}
+			e := ast.Unparen(vs.Values[0])
+			stable := false
+			switch x := e.(type) {
+			case *ast.FuncLit:
+				stable = true
+			case *ast.Ident:
+				stable = !assignedNames[x.Name]
+			case *ast.SelectorExpr:
+				if id, ok := ast.Unparen(x.X).(*ast.Ident); ok {
+					stable = !assignedNames[id.Name]
+				}
+			}
+			if !stable {
+				return true
+			}
+			var useCall *ast.CallExpr
+			uses := 0
+			callFun := map[*ast.Ident]*ast.CallExpr{}
+			ast.Inspect(fd.Body, func(m ast.Node) bool {
+				if call, ok := m.(*ast.CallExpr); ok {
+					if id, ok := call.Fun.(*ast.Ident); ok {
+						callFun[id] = call
+					}
+				}
+				if id, ok := m.(*ast.Ident); ok && id.Name == name && id.Pos() > ds.End() {
+					uses++
+					useCall = callFun[id]
+				}
+				return true
+			})
+			if uses != 1 || useCall == nil {
+				return true
+			}
+			// a following `_ = fn` keep-alive would be a second use; nothing else to clean up
+			etext := string(src[off(vs.Values[0].Pos()):off(vs.Values[0].End())])
+			edits = append(edits, textEdit{off(ds.Pos()), off(ds.End()), ""})
+			edits = append(edits, textEdit{off(useCall.Fun.Pos()), off(useCall.Fun.End()), "(" + etext + ")"})
 			return true
 		})
 	}
